@@ -391,6 +391,19 @@ PoolOK(T) ==
         /\ NIL \notin F
         /\ S \cup F \cup {NIL} = AllSlots(T)     \* nothing lost
 
+(***************************************************************************)
+(* Projection onto the integer abstraction of the pool (PoolSym.tla), whose *)
+(* inductive invariant - the storage bound of C11 for arenas and histories  *)
+(* of every size - is discharged by Apalache.  The MC modules assert on     *)
+(* every transition that the projection moves by these abstract steps.      *)
+(***************************************************************************)
+AbsPool(T) == [n |-> Len(T.nd), f |-> Len(T.free), u |-> T.ucap]
+AbsTake(a) == IF a.f > 0 THEN [a EXCEPT !.f = a.f - 1]
+              ELSE [a EXCEPT !.n = a.n + a.u, !.f = a.u - 1]                       \* Take / GrowTake
+AbsGive(a) == [a EXCEPT !.f = a.f + 1, !.u = IF a.f + 1 <= a.u THEN a.u ELSE Max(2 * a.u, a.f + 1)]
+RECURSIVE AbsGives(_, _)
+AbsGives(a, k) == IF k <= 0 THEN a ELSE AbsGives(AbsGive(a), k - 1)
+
 \* canonical form: the tree up to renaming of slots
 RECURSIVE Canon(_, _)
 Canon(T, i) == IF i = E THEN <<>>
